@@ -6,6 +6,10 @@ check is pointed at it with VERIF_REPO and its evidence at a scratch directory w
 worktree is removed afterwards.  Writes seeded/MATRIX.json and seeded/MATRIX.md.
 
   matrix.py [--tier quick] [--only C07-m1,...] [--jobs 2] [--props C01,C02]   (extra props: also run these checks on every mutant)
+
+seeded/<id>/meta.json may carry an optional list `also` of further properties whose checks are expected to catch the change too
+(e.g. C02-r6: `"also": ["C14", "C08"]`): those checks are run on that mutant as well and get their own lines in MATRIX.md and an
+`also caught by` column; the primary column (the check of `property`) and the list of misses are computed as before.
 """
 import argparse, json, os, re, shutil, subprocess, sys, tempfile, time
 import concurrent.futures as cf
@@ -28,7 +32,11 @@ def run_one(name, tier, extra):
         if r.returncode != 0:
             res['error'] = 'patch does not apply: ' + r.stderr[-300:]
             return res
-        for p in [prop] + [x for x in extra if x != prop]:
+        also = [x for x in meta.get('also', []) if x != prop]
+        res['also'] = also
+        for p in [prop] + [x for x in also + extra if x != prop]:
+            if p in res['checks']:
+                continue            # named both in `also` and in --props
             ev = tempfile.mkdtemp(prefix='mev-', dir='/tmp')
             env = dict(os.environ, VERIF_REPO=wt, VERIF_EVID=ev)
             t0 = time.time()
@@ -40,7 +48,12 @@ def run_one(name, tier, extra):
             if m and os.path.exists(m.group(1)):
                 try:
                     j = json.load(open(m.group(1)))
-                    what = (j.get('obligation') or j.get('finding_class') or j.get('what') or '')[:160]
+                    w = j.get('what')
+                    if isinstance(w, list):
+                        w = str(w[0]) if w else ''
+                    cls = j.get('finding_class')
+                    # an unlisted finding: say what was wrong with the input rather than just "unlisted"
+                    what = str(j.get('obligation') or (w if cls in (None, 'unlisted') and w else cls) or w or '')[:160].replace('\n', ' ')
                 except Exception:
                     pass
             res['checks'][p] = {'rc': r.returncode, 'violations': len(viol),
@@ -78,11 +91,15 @@ def main():
                                                                 c.get('with_input'), c.get('wall_s'), res.get('error', '')), flush=True)
     json.dump(out, open(path, 'w'), indent=1, sort_keys=True)
     with open(os.path.join(SEEDED, 'MATRIX.md'), 'w') as fh:
-        fh.write('| seeded change | property | check | caught | with failing input | first line |\n|---|---|---|---|---|---|\n')
+        fh.write('| seeded change | property | check | caught | with failing input | first line | also caught by |\n|---|---|---|---|---|---|---|\n')
         for k in sorted(out):
             r = out[k]
+            # the other checks that catch the change (those named in meta.json `also` and any run with --props), with / without a failing input
+            others = ['%s (%s)' % (p, 'failing input' if c['with_input'] else 'correspondence only')
+                      for p, c in r['checks'].items() if p != r['property'] and c['rc']]
             for p, c in r['checks'].items():
-                fh.write('| %s | %s | %s | %s | %s | %s |\n' % (k, r['property'], p, 'yes' if c['rc'] else 'NO', c['with_input'], c['what'].replace('|', '/')))
+                fh.write('| %s | %s | %s | %s | %s | %s | %s |\n' % (k, r['property'], p, 'yes' if c['rc'] else 'NO', c['with_input'], c['what'].replace('|', '/'),
+                                                                  ', '.join(others) if p == r['property'] else ''))
     missed = [k for k, r in out.items() if not r['checks'].get(r['property'], {}).get('rc')]
     print('missed:', missed)
 
